@@ -95,3 +95,70 @@ def check_dead_flag_lowering(ctx, rule):
                       'without having a child - after a failed restart() every later is_alive / wait / terminate / restart raises AttributeError', where=loc(f, st))
     ctx.floor('stores that lower the dead flag', n_sites, 4)
     return n_sites
+
+
+def check_child_thread_not_daemon(ctx, rule):
+    """The thread that does the work of a thread worker (and the forwarding thread of a remote worker) is held in self._child and is not a daemon:
+    the interpreter joins non-daemon threads when the main thread ends, which is what lets a program that enqueued work and closed the worker - but
+    did not wait - still have every accepted input carried out.  A daemon child is abandoned at exit and its queued inputs are dropped silently.
+    Rule: where self._child is bound to threading.Thread(...), a `daemon` argument is absent, False / None, or a value into which no True constant
+    flows inside the package - no `daemon=True`, `setdefault('daemon', True)`, `kwargs['daemon'] = True` in the worker hierarchy - and nothing sets
+    `self._child.daemon` / calls setDaemon on it."""
+    P = ctx.prog
+    W = P.cls('Worker')
+    sites = 0
+    forwarded = False
+    for f in P.funcs.values():
+        c = f.cls
+        if c is None or W not in c.mro():
+            continue
+        for st in walk_local(f.node):
+            if isinstance(st, ast.Assign) and any(is_self_attr(t, '_child') for t in st.targets) and isinstance(st.value, ast.Call) and norm(st.value.func).endswith('Thread'):
+                sites += 1
+                ctx.used(f)
+                kw = next((k.value for k in st.value.keywords if k.arg == 'daemon'), None)
+                if kw is None or (isinstance(kw, ast.Constant) and kw.value in (False, None)):
+                    ctx.ob(rule, f'{f.short}: the child thread is created non-daemon', True)
+                elif isinstance(kw, ast.Constant):
+                    ctx.check(rule, f'{f.short}: the child thread is created non-daemon', False, f.short, 'child-thread-daemon:literal',
+                              f'`{norm(st)[:90]}` makes the worker\'s thread a daemon: a program that ends without wait() loses the inputs it enqueued', where=loc(f, st))
+                else:
+                    forwarded = True
+                    ctx.ob(rule, f'{f.short}: the daemon flag of the child thread is a forwarded option ({norm(kw)})', True)
+            if isinstance(st, ast.Assign) and any(isinstance(t, ast.Attribute) and t.attr == 'daemon' and is_self_attr(t.value, '_child') for t in st.targets) \
+                    and not (isinstance(st.value, ast.Constant) and st.value.value in (False, None)):
+                ctx.check(rule, f'{f.short}: the child thread stays non-daemon', False, f.short, 'child-thread-daemon:attribute',
+                          f'`{norm(st)[:90]}` makes the worker\'s thread a daemon', where=loc(f, st))
+    if forwarded:
+        # the option may be forwarded; no constant True may flow into it from inside the hierarchy
+        for f in P.funcs.values():
+            c = f.cls
+            if c is None or W not in c.mro():
+                continue
+            for n in walk_local(f.node):
+                bad = None
+                if isinstance(n, ast.Call):
+                    if last_attr_(n) == 'setdefault' and len(n.args) == 2 and isinstance(n.args[0], ast.Constant) and n.args[0].value == 'daemon' \
+                            and isinstance(n.args[1], ast.Constant) and n.args[1].value is True:
+                        bad = n
+                    if any(k.arg == 'daemon' and isinstance(k.value, ast.Constant) and k.value.value is True for k in n.keywords) and not norm(n.func).endswith('Thread'):
+                        bad = n
+                    if last_attr_(n) == 'update' and n.args and isinstance(n.args[0], ast.Dict) and any(
+                            isinstance(k, ast.Constant) and k.value == 'daemon' and isinstance(v, ast.Constant) and v.value is True for k, v in zip(n.args[0].keys, n.args[0].values)):
+                        bad = n
+                if isinstance(n, ast.Assign) and any(isinstance(t, ast.Subscript) and isinstance(t.slice, ast.Constant) and t.slice.value == 'daemon' for t in n.targets) \
+                        and isinstance(n.value, ast.Constant) and n.value.value is True:
+                    bad = n
+                if isinstance(n, ast.arguments):
+                    for a, d in list(zip(reversed(n.args), reversed(n.defaults))) + [(a, d) for a, d in zip(n.kwonlyargs, n.kw_defaults) if d is not None]:
+                        if a.arg == 'daemon' and isinstance(d, ast.Constant) and d.value is True:
+                            bad = d
+                if bad is not None:
+                    ctx.check(rule, f'{f.short}: no True default flows into the daemon option of the child thread', False, f.short, 'child-thread-daemon:default',
+                              f'`{norm(bad)[:90]}` in {f.short} makes the worker\'s thread a daemon by default: the interpreter no longer waits for it at exit, so a program '
+                              'that enqueues work, closes the worker and ends without wait() silently loses the inputs still queued', where=loc(f, bad))
+    ctx.floor('creation sites of the child thread', sites, 2)
+
+
+def last_attr_(call):
+    return call.func.attr if isinstance(call.func, ast.Attribute) else (call.func.id if isinstance(call.func, ast.Name) else None)
